@@ -347,6 +347,9 @@ func (conn *Conn) initialise() {
 	conn.in = make(chan *Line, 32)
 	conn.out = make(chan string, 32)
 	conn.die = nil
+	// A SASL exchange that the previous connection never finished must not
+	// leave an initial response behind to be sent on this one.
+	conn.saslRemainingData = nil
 	if conn.st != nil {
 		conn.st.Wipe()
 	}
